@@ -64,6 +64,20 @@ def alphabet(P): return {t[1] for t in P[3] if t[1] is not None}
 def build(P, extra_states=()):
     from pyformlang.pda import PDA
     start, z0, finals, trans = P
+    # two ways of building, chosen by the PDA (stable across hash seeds): through add_transition; or everything handed to the constructor -
+    # a transition function built on its own, the states without the start and final ones (the constructor has to register those)
+    import hashlib, json
+    mode = int(hashlib.md5(json.dumps(to_json(P), sort_keys=True, default=repr).encode()).hexdigest(), 16) % 3
+    if mode == 1 and start is not None and z0 is not None and not extra_states:
+        from pyformlang.pda import State, Symbol, StackSymbol, Epsilon
+        from pyformlang.pda.transition_function import TransitionFunction
+        tf = TransitionFunction()
+        for (p, a, X, q, push) in sorted(trans, key=repr):
+            tf.add_transition(State(p), Epsilon() if a is None else Symbol(a), StackSymbol(X), State(q), [StackSymbol(y) for y in push])
+        inner = {State(x) for (p, a, X, q, push) in trans for x in (p, q)} - {State(start)} - {State(f) for f in finals}
+        return PDA(states=inner, input_symbols={Symbol(a) for (_, a, _, _, _) in trans if a is not None},
+                   stack_alphabet={StackSymbol(y) for (p, a, X, q, push) in trans for y in (X,) + tuple(push)} - {StackSymbol(z0)},
+                   transition_function=tf, start_state=State(start), start_stack_symbol=StackSymbol(z0), final_states={State(f) for f in finals})
     pda = PDA(states=set(extra_states) or None, start_state=start, start_stack_symbol=z0, final_states=set(finals))
     for (p, a, X, q, push) in sorted(trans, key=repr):
         pda.add_transition(p, 'epsilon' if a is None else a, X, q, list(push))
